@@ -157,7 +157,20 @@ func (r *Decoder) DecodeRow(rec interface{}) bool {
 				continue
 			}
 
-			fValue.Set(reflect.ValueOf(g))
+			gv := reflect.ValueOf(g)
+			if !gv.Type().AssignableTo(fType.Type) {
+				// A poly-line is read as a geom.MultiLineString: a field of type
+				// geom.LineString, which Encode accepts, takes its only part.
+				// Anything else that does not fit is an error, not a panic.
+				mls, isMLS := g.(geom.MultiLineString)
+				if isMLS && len(mls) == 1 && fType.Type == reflect.TypeOf(geom.LineString{}) {
+					gv = reflect.ValueOf(mls[0])
+				} else {
+					r.err = fmt.Errorf("shp: shape of type %T cannot be stored in field %s of type %v", g, fType.Name, fType.Type)
+					return false
+				}
+			}
+			fValue.Set(gv)
 
 			// Then, check the tag name
 		} else if j, ok := r.attributeIndex(fType.Tag.Get(tag)); ok {
